@@ -300,6 +300,8 @@ func (s *Sim) runBias() bool {
 		return s.biasApplied0()
 	case BiasBatchedConf:
 		return s.biasBatchedConf()
+	case BiasSlowApplier:
+		return s.biasSlowApplier()
 	}
 	return false
 }
@@ -496,6 +498,71 @@ func (s *Sim) biasRemoved() bool {
 		s.settle(s.allSet(), 40)
 		s.doPropose(l)
 	}
+	s.reunite()
+	return removed
+}
+
+// biasSlowApplier: applies are paged (one entry per Ready) and a follower x falls behind in applying while two voter
+// removals (first y, who is never told, then x itself) are committed behind a run of ordinary entries. x knows they are
+// committed but has applied neither; it must not campaign on the configuration it still has applied - y would vote
+// for it, and x and the remaining sole voter would commit different entries at the same index.
+func (s *Sim) biasSlowApplier() bool {
+	l, v, ok := s.prep()
+	if !ok || len(v) != 3 {
+		s.biasNote = "abort@30"
+		return false
+	}
+	f := without(v, l)
+	x, y := f[0], f[1]
+	lSet, xSet := setOf(l), setOf(x)
+	// y hears nothing from now on
+	s.dropWhere(touching(setOf(y)))
+	for i := 0; i < 6; i++ {
+		s.doPropose(l)
+	}
+	s.doConfChange(l, pb.ConfChange{Type: pb.ConfChangeRemoveNode, NodeID: y}, EvConfV1, uint64(pb.ConfChangeRemoveNode)<<8|y)
+	// one Ready on x per exchange: it persists everything it was sent and applies one page
+	exchange := func() {
+		s.settle(lSet, 20)
+		s.deliverWhere(between(lSet, xSet))
+		s.dropWhere(touching(setOf(y)))
+		s.readyAll(xSet)
+		s.deliverWhere(between(xSet, lSet))
+		s.settle(lSet, 20)
+		s.dropWhere(touching(setOf(y)))
+	}
+	for r := 0; r < 3 && inSet(s.nodes[l].disk.cs.Voters, y) && s.viol == nil; r++ {
+		exchange()
+	}
+	if inSet(s.nodes[l].disk.cs.Voters, y) {
+		s.reunite()
+		s.biasNote = "abort@31"
+		return false
+	}
+	s.doConfChange(l, pb.ConfChange{Type: pb.ConfChangeRemoveNode, NodeID: x}, EvConfV1, uint64(pb.ConfChangeRemoveNode)<<8|x)
+	for r := 0; r < 3 && inSet(s.nodes[l].disk.cs.Voters, x) && s.viol == nil; r++ {
+		exchange()
+	}
+	removed := !inSet(s.nodes[l].disk.cs.Voters, x)
+	// the sole voter moves on by itself; x, far behind in applying, reaches its election timeout; y is reachable again
+	s.doPropose(l)
+	s.settle(lSet, 20)
+	s.dropWhere(touching(setOf(x, y)))
+	xy := setOf(x, y)
+	for i := 0; i < 2 && s.viol == nil; i++ {
+		s.doCampaign(x)
+		for r := 0; r < 6 && s.viol == nil; r++ {
+			// x handles only what an election needs; it still does not catch up on applying
+			s.readyAll(xy)
+			if s.deliverWhere(within(xy)) == 0 {
+				break
+			}
+		}
+		s.doPropose(x)
+		s.doPropose(l)
+		s.settle(lSet, 10)
+	}
+	s.settle(xy, 40)
 	s.reunite()
 	return removed
 }
